@@ -14,7 +14,7 @@ EmitSpec == EmitInit /\ [][FALSE]_vars
 Emit == LET d == Desugar(sig) IN
         PrintT(<<"CASE", ToJson([sig |-> sig, accepted |-> Accepted(sig),
                     missing |-> IF ElidedRet(sig.ret.kind)
-                                  THEN (MustRestate(d) \cup Named(RetRefImplied(d))) \ TC(Named(d.decl \cup (RefImplied(d) \ RetRefImplied(d))))
+                                  THEN (MustRestate(d) \cup Named(RetRefImplied(d))) \ TC(Named(d.decl \cup InputRefImplied(d)))
                                   ELSE MustRestate(d) \ TC(Named(Spelled(d))),
                     edges |-> [r \in OutLts(d) |-> EdgeList(d, r)]])>>)
 =============================================================================
